@@ -416,10 +416,8 @@ class GRUnit(Operation):
                 self.X, dLdX.astype(self.X.dtype, copy=False)
             )  # self.X.backward(dLdX, **kwargs)
 
-        del self._z
-        del self._r
-        del self._h
-
+        # (`_z`, `_r`, `_h` are kept: a back-propagation pass that is aborted
+        #  elsewhere in the graph can be asked for again)
         super().backward(grad)
 
 
